@@ -303,8 +303,20 @@ def d5_9(ctx):
             ok = ok and name == key and isinstance(inner, list) and len(inner) == 3 and inner[0][1] == "UINT" and inner[1][1] == "UINT" and inner[2][1] == wt
     ctx.check(ok, f"{CT}:StructTemplateAttributes", s.node if s is not None else mod.tree, "count + (attr UINT, status UINT, value) x4 with value widths UDINT, UDINT, UINT, UINT in request order", f"StructTemplateAttributes {members} does not decode the requested attributes {want_ids} in order with their widths", members=str(members))
     used = {"object_definition_size": "_get_data_type", "structure_size": "_parse_template_data", "member_count": "_parse_template_data", "structure_handle": "_get_structure_makeup"}
+    def reach(m):
+        # the method and the methods of the class it calls on self (an extracted helper reads for it)
+        seen, todo = [], [m]
+        while todo:
+            x = todo.pop()
+            if x in seen or x not in lx.methods:
+                continue
+            seen.append(x)
+            todo.extend(c.func.attr for c in walk(lx.methods[x]) if isinstance(c, ast.Call) and isinstance(c.func, ast.Attribute) and atom_name(c.func.value) == "self")
+        return [lx.methods[x] for x in seen]
+
     for k, m in used.items():
-        ok = any(isinstance(n, ast.Subscript) and isinstance(n.slice, ast.Constant) and n.slice.value == k for n in walk(lx.methods[m]))
+        ok = any((isinstance(n, ast.Subscript) and ctx.folder.eval(n.slice, lx.module) == k) or (isinstance(n, ast.Call) and isinstance(n.func, ast.Attribute) and n.func.attr == "get" and n.args and ctx.folder.eval(n.args[0], lx.module) == k)
+                 for f_ in reach(m) for n in walk(f_))
         ctx.check(ok, ckey(f"{lx.key}.{m}", f"uses:{k}"), lx.methods[m], f"{m} reads '{k}'", f"{m} no longer reads template['{k}']")
 
 
@@ -635,16 +647,22 @@ def d5_14(ctx):
     otherwise the return raises KeyError for a structure the controller does define."""
     lx = _lx(ctx)
     n_sites = 0
+    delegated = False
+    from .driver import d5_19
+
+    d5_19(ctx)  # first lookups with empty caches: the definition is fetched, stored and returned
     for mname, fn in sorted(lx.methods.items()):
         for ret in [n for n in walk(fn) if isinstance(n, ast.Return) and isinstance(n.value, ast.Subscript) and isinstance(n.value.slice, ast.Name)]:
             C, k = src(ret.value.value), ret.value.slice.id
             stores = [s for s in walk(fn) if isinstance(s, ast.Assign) and any(isinstance(t, ast.Subscript) and src(t.value) == C and src(t.slice) == k for t in s.targets)]
             tests = [t for t in walk(fn) if isinstance(t, ast.Compare) and len(t.ops) == 1 and isinstance(t.ops[0], (ast.In, ast.NotIn)) and src(t.left) == k and src(t.comparators[0]) == C]
-            if not stores and not tests:
-                continue
+            if (not stores and not tests) or not C.startswith("self."):
+                continue  # (a lookup in a parameter or a local is not a cache of the driver)
             n_sites += 1
             if not stores:
-                ctx.violation(ckey(lx.key + "." + mname, f"memo:{C}[{k}]"), ret, f"`return {C}[{k}]` follows a membership test of the key but nothing stores `{C}[{k}]`: KeyError for every definition not yet cached")
+                # the fill happens elsewhere (a helper the method calls): whether the first lookup of a definition succeeds is decided
+                # by folding the method on witness replies with empty caches (D5.19), not by a path argument over this body alone
+                delegated = True
                 continue
             g = ctx.cfg(fn)
             req = {nd for s in stores for nd in g.nodes_of(s)}
@@ -672,7 +690,7 @@ def d5_14(ctx):
                 lines = [getattr(nd, "lineno", None) for nd in path]
                 lines = [x() if callable(x) else x for x in lines]
                 ctx.violation(key, ret, f"`return {C}[{k}]` is reachable without the key being present or stored (path through lines {[x for x in lines if x][:12]}): KeyError for a definition the controller has")
-    if n_sites == 0:
+    if n_sites == 0 and not delegated:
         ctx.undecided(ckey(lx.key, "memo"), lx.node, "no memoised lookup found (the definition caches are expected in _get_data_type / _get_structure_makeup)")
 
 
